@@ -202,6 +202,14 @@ def check_case(ctx, case):
                 if not _arr_eq(r[0], r[1]):
                     viol("values", f"dask-vs-pandas:{op}:{'empty-partition' if empty_part else 'plain'}",
                          np.asarray(r[1]).tolist()[:8], np.asarray(r[0]).tolist()[:8])
+            # a caller may write into the bounds table it was handed: the selections below come afterwards
+            r = guarded("partition_bounds-handed-out", lambda: ddf.geometry.partition_bounds)
+            if r is not None and len(r):
+                try:
+                    r.iloc[:, :] = 1.0e9
+                    ctx.count("caller_written_results")
+                except Exception:  # noqa: BLE001  (a read-only result is fine)
+                    pass
             for bx in case["boxes"]:
                 x0, y0, x1, y1 = bx
                 r = guarded("intersects_bounds", lambda: (ddf.geometry.intersects_bounds(tuple(bx)).compute().values,
